@@ -196,7 +196,15 @@ def probing(R, P, fns):
                 R.check(ok, "FIND", "not-found-only-at-empty-or-shorter-probe:line%d" % e.line, where(f, e), "`not found` is decided at an empty slot or at an entry with a shorter probe distance",
                         "the search gives up with `not found` for another reason (%s): a stored key behind an entry with the same hash code is not found, put stores it a second time" % [f.show(f.d(c_))[:50] for c_, p_, b_ in RU.guards(f, e, dom)][-2:])
             elif val == okv:
-                ok = any(RU.call_test(f, c_, p_) and RU.call_test(f, c_, p_)[0].get("callee") == "s_hash_keys_eq" and RU.call_test(f, c_, p_)[1] == "nonzero" for c_, p_, b_ in RU.guards(f, e, dom))
+                # the key comparison: the NULL-safe equality itself or a private wrapper that returns its verdict
+                eqfam = {"s_safe_eq_check"}
+                for g_ in fns.values() if isinstance(fns, dict) else []:
+                    cs_ = g_.calls(eqfam) if g_.name not in eqfam else []
+                    if len(cs_) == 1 and g_.returns() and all(r_.node.get("a") and RU.origin(g_, r_.node["a"][0]) is cs_[0].node for r_ in g_.returns()):
+                        eqfam.add(g_.name)
+                if P.fn("s_hash_keys_eq") is not None and P.fn("s_hash_keys_eq").calls(eqfam):
+                    eqfam.add("s_hash_keys_eq")
+                ok = any(RU.call_test(f, c_, p_) and RU.call_test(f, c_, p_)[0].get("callee") in eqfam and RU.call_test(f, c_, p_)[1] == "nonzero" for c_, p_, b_ in RU.guards(f, e, dom))
                 R.check(ok, "FIND", "found-only-under-key-equality:line%d" % e.line, where(f, e), "`found` is decided by the key comparison")
             else:
                 R.fail("FIND", "verdict-is-found-or-not-found:line%d" % e.line, where(f, e), "the search verdict %s is neither `found` under the key comparison nor `not found` at an empty slot / a shorter probe distance: a same-hash entry with another key ends the search" % f.show(a_["a"][1])[:80])
